@@ -42,6 +42,7 @@ func init() {
 			ruleNoAliasAfterTruncate(r, "R11", "/iscp")
 			ruleDispatchLoopsSurvive(r, "R12", "/wire", "/iscp") // every result of a batched ack reaches its waiter
 			ruleC01R13(r)
+			ruleC01R14(r)
 			r.borrow("C20", func() { ruleC20P5(r, cut) }) // what counts as an empty buffer decides whether buffered points are ever sent and acknowledged
 		},
 	})
@@ -1007,8 +1008,37 @@ func ruleC01R13(r *Run) {
 	r.Begin("R13", "the dispatcher drains before it stops: in the methods of iscp.eventDispatcher every look at the context (Done(), Err()) is made on the true edge of a test len(handler) == 0", 1)
 	p := r.P
 	n := 0
+	// the dispatcher: the methods that run queued handlers (they call a function value), and the methods those call —
+	// a method that merely queues a marker and waits for it (a join offered to Close) is a client of the dispatcher
+	runs := map[*ssa.Function]bool{}
 	for _, fn := range p.Funcs {
-		if fnPkgPath(fn) != modPath+"/iscp" || recvTypeName(fn) != "eventDispatcher" || fn.Blocks == nil {
+		if fnPkgPath(fn) != modPath+"/iscp" || recvTypeName(fn) != "eventDispatcher" || fn.Blocks == nil || fn.Parent() != nil {
+			continue
+		}
+		runner := false
+		// (the loop that runs the batch may have been moved into a helper the method calls)
+		p.withHelpers(fn, 1, func(g *ssa.Function) {
+			if g.Parent() != nil {
+				return
+			}
+			allInstrs(g, func(ins ssa.Instruction) {
+				if c, ok := ins.(*ssa.Call); ok && !c.Call.IsInvoke() && c.Call.StaticCallee() == nil {
+					if _, isB := c.Call.Value.(*ssa.Builtin); !isB {
+						runner = true
+					}
+				}
+			})
+		})
+		if runner {
+			p.withHelpers(fn, 2, func(g *ssa.Function) { runs[g] = true })
+		}
+	}
+	if len(runs) == 0 {
+		r.Undecided("dispatcher", "no method of eventDispatcher runs queued handlers")
+		return
+	}
+	for _, fn := range p.Funcs {
+		if fnPkgPath(fn) != modPath+"/iscp" || recvTypeName(fn) != "eventDispatcher" || fn.Blocks == nil || !runs[fn] {
 			continue
 		}
 		name := fnName(fn)
@@ -1071,4 +1101,84 @@ func ruleC01R13(r *Run) {
 	if n == 0 {
 		r.Undecided("dispatcher context tests", "no method of eventDispatcher looks at a context")
 	}
+}
+
+// ruleC01R14: "each result has been reported to the ack hook … by the time Close returns". Where the hook is not called
+// by the goroutine that processes the result but queued for the event dispatcher (a function literal handed to
+// eventDispatcher.addHandler), Close can only keep that promise by joining the dispatcher: somewhere between the wait for
+// the acknowledgements and its successful return it calls a method of the event dispatcher that blocks until the
+// queue has been worked off (anything of eventDispatcher that waits, other than the dispatch loop itself).
+func ruleC01R14(r *Run) {
+	r.Begin("R14", "Close joins the hook dispatcher: when ReceiveAckHooker.HookAfter is invoked from a function literal queued with eventDispatcher.addHandler, (*Upstream).Close (or a helper it calls) calls a blocking method of the event dispatcher before it returns nil", 1)
+	p := r.P
+	cl := r.method("/iscp", "Upstream", "Close")
+	disp := r.named("/iscp", "eventDispatcher")
+	if cl == nil || disp == nil {
+		return
+	}
+	async := false
+	var where ssa.Instruction
+	for _, h := range p.moduleCalls("/iscp.ReceiveAckHooker.HookAfter") {
+		fn := h.Parent()
+		if fn.Parent() == nil {
+			continue
+		}
+		_, uses, okv := funcValueUses(fn)
+		if !okv {
+			continue
+		}
+		for _, u := range uses {
+			if isCallNamed(u, "/iscp.eventDispatcher.addHandler") {
+				async = true
+				where = h
+			}
+		}
+	}
+	name := fnName(cl)
+	if !async {
+		r.Check(name+" waits for the ack hooks", true, p.pos(cl.Pos()), name, "the ack hook is not queued for the event dispatcher: it has run when the result has been processed")
+		return
+	}
+	joins := false
+	p.withHelpers(cl, 2, func(g *ssa.Function) {
+		allInstrs(g, func(ins ssa.Instruction) {
+			cc := instrCall(ins)
+			if cc == nil {
+				return
+			}
+			m := cc.StaticCallee()
+			if m == nil || m.Signature.Recv() == nil || namedOf(m.Signature.Recv().Type()) != disp {
+				return
+			}
+			switch m.Name() {
+			case "dispatchLoop", "addHandler", "wake":
+				return
+			}
+			blocks := false
+			withAnon(m, func(x *ssa.Function) {
+				if x != m {
+					return
+				}
+				allInstrs(x, func(y ssa.Instruction) {
+					switch z := y.(type) {
+					case *ssa.Select:
+						if z.Blocking {
+							blocks = true
+						}
+					case *ssa.UnOp:
+						if z.Op == token.ARROW {
+							blocks = true
+						}
+					}
+					if isCallNamed(y, "sync.Cond.Wait", "sync.WaitGroup.Wait") {
+						blocks = true
+					}
+				})
+			})
+			if blocks {
+				joins = true
+			}
+		})
+	})
+	r.Check(name+" waits for the ack hooks", joins, p.pos(cl.Pos()), name, "the ack hook is called by the event dispatcher goroutine (queued at "+posOf(p, where)+"), and Close does not wait for that goroutine: it returns while results are still in the dispatcher's queue, so the hook has not been given every result by the time Close returns")
 }
